@@ -36,6 +36,7 @@ def run(ctx):
     ctx.do(rule_utc)
     ctx.do(rule_no_relabel)
     ctx.do(rule_one_writer_one_reader)
+    ctx.do(rule_writer_accepts_what_encoders_send)
     ctx.do(rule_truncated_in_utc)
     ctx.do(rule_value_object)
     ctx.do(rule_api_domain)
@@ -282,7 +283,8 @@ def rule_utc(ctx):
     fi = prog.func(U + "::format_datetime")
     rel = fi.module.relpath
     p = fi.params[0]
-    first = next((s for s in fi.node.body if isinstance(s, ast.If)), None)
+    # the statement that decides naive / aware (not necessarily the first `if` of the function)
+    first = next((s for s in fi.node.body if isinstance(s, ast.If) and ".tzinfo" in norm(s.test)), None)
     ok = False
     zvar = None
     if first is not None:
@@ -415,6 +417,45 @@ def rule_one_writer_one_reader(ctx, rule_id="C15.api-domain"):
                     function=fi.qualname, expected="stix2.utils.format_datetime(...) / parse_into_datetime(...)", found=short(x, 80))
     if n < 2:
         raise AnalysisError("strftime / strptime call sites not found (%d): anchors lost" % n)
+
+
+def rule_writer_accepts_what_encoders_send(ctx, rule_id="C15.api-domain"):
+    """Producer / consumer agreement: both JSON encoders hand every `datetime.date` instance (plain dates included -- a
+    datetime is a date, not the reverse) to format_datetime.  A plain date has no tzinfo / time fields: the writer must turn
+    it into a datetime (midnight UTC, as parse_into_datetime reads a date) before it touches them, or serialising an object
+    that holds a date in an untyped position raises AttributeError instead of writing '2020-01-02T00:00:00Z'."""
+    run = ctx.run
+    prog = ctx.prog
+    sends_date = []
+    for cls in prog.classes.values():
+        if cls.module.name != "stix2.serialization":
+            continue
+        d = cls.methods.get("default")
+        if d is None:
+            continue
+        for iff in [x for x in body_walk(d.node) if isinstance(x, ast.If) and "isinstance(" in norm(x.test)]:
+            if any(isinstance(c, ast.Call) and call_simple_name(c) == "format_datetime" for st_ in iff.body for c in ast.walk(st_)):
+                kinds = [norm(e) for t in ast.walk(iff.test) if isinstance(t, ast.Call) and norm(t.func) == "isinstance" and len(t.args) == 2
+                         for e in (t.args[1].elts if isinstance(t.args[1], ast.Tuple) else [t.args[1]])]
+                if any(k.endswith(".date") or k == "date" for k in kinds):
+                    sends_date.append(cls.qualname)
+    if not sends_date:
+        run.info(rule_id, key("stix2/serialization.py", "<encoders>", "writer-accepts-plain-dates"), "no encoder sends plain dates to the writer")
+        return
+    fi = prog.func(U + "::format_datetime")
+    p0 = fi.params[0]
+    first_use = min((x.lineno for x in body_walk(fi.node) if isinstance(x, ast.Attribute) and norm(x.value) == p0
+                     and x.attr in ("tzinfo", "astimezone", "hour", "minute", "second", "microsecond", "utcoffset")), default=None)
+    conv = [x for x in body_walk(fi.node) if isinstance(x, ast.If) and p0 in norm(x.test) and (
+        "isinstance(%s, dt.datetime)" % p0 in norm(x.test) or "hasattr(%s, 'hour')" % p0 in norm(x.test)) and any(
+            isinstance(a_, ast.Assign) and norm(a_.targets[0]) == p0 and "combine" in norm(a_.value) for a_ in x.body)]
+    ok = bool(conv) and (first_use is None or conv[0].lineno < first_use)
+    run.check(ok, rule_id, key(fi.module.relpath, fi.qualname, "writer-accepts-plain-dates"),
+              "the encoders (%s) send plain datetime.date values to format_datetime, which reads .tzinfo / time fields a date does "
+              "not have: AttributeError while serialising" % ", ".join(sorted(sends_date)), file=fi.module.relpath,
+              line=first_use or fi.node.lineno, function=fi.qualname,
+              expected="if not isinstance(%s, dt.datetime): %s = dt.datetime.combine(%s, dt.time(0, 0, tzinfo=utc))  first" % (p0, p0, p0),
+              found="no conversion of plain dates" if not conv else "after the first use")
 
 
 def rule_no_relabel(ctx, rule_id="C15.utc"):
